@@ -482,7 +482,7 @@ def group_of(route):
 
 
 # routes whose known failure is one root cause surfacing through several views: all checks share one key
-ROUTE_ONEKEY = {'level_drop-inner': f'{PID}:ih:level_drop-inner:offsets-not-recomputed'}
+ROUTE_ONEKEY = {'level_drop-inner': f'{PID}:ih:level_drop-inner:offsets-not-recomputed', 'level_drop-outer': f'{PID}:ih:level_drop-outer:offsets-not-recomputed'}
 
 
 def result_rows(ix):
@@ -1237,7 +1237,7 @@ FLAT_BASES = {
     'go-bool': dict(cls='IndexGO', labels=[False], fresh=[True, 'b', 'c', 'd', 'e', 'f', 'g', 'h'], other=[5, 6, 7, 8, 9, 10, 11, 12], pyeq=0),
     'go-from-static': dict(cls='IndexGO', labels=[3, 1], via='static', fresh=[40, 41, 42, 43, 44, 45, 46, 47], other=['zz', 'yy', 'xx', 'ww', 'vv', 'uu', 'tt', 'ss'], pyeq=1.0),
     'go-dt64': dict(cls='IndexGO', labels=[dt('2020-01-01', 'D'), dt('2019-01-01', 'D')], via='array', fresh=[dt(f'2030-01-0{i}', 'D') for i in range(1, 9)],
-                    other=[dt(f'2031-01-0{i}', 'D') for i in range(1, 9)], pyeq=None, onekey=f'{PID}:plain:datetime64-label-in-object-index'),
+                    other=[dt(f'2031-01-0{i}', 'D') for i in range(1, 9)], pyeq=None, onekey=f'{PID}:plain:history:datetime64-labels-resurface-as-date-objects'),
     'auto3': dict(cls='IndexGO', labels=[0, 1, 2], via='factory', fresh=[40, 41, 42, 43, 44, 45, 46, 47], other=['zz', 'yy', 'xx', 'ww', 'vv', 'uu', 'tt', 'ss'], pyeq=1.0),
     'auto0': dict(cls='IndexGO', labels=[], via='factory', fresh=[40, 41, 42, 43, 44, 45, 46, 47], other=['zz', 'yy', 'xx', 'ww', 'vv', 'uu', 'tt', 'ss'], pyeq=None),
     'auto-framego': dict(cls='IndexGO', labels=[0, 1, 2], via='framego', fresh=[40, 41, 42, 43, 44, 45, 46, 47], other=['zz', 'yy', 'xx', 'ww', 'vv', 'uu', 'tt', 'ss'], pyeq=True),
